@@ -3,7 +3,6 @@ import MythVerif.Proofs.WsQueueTsoTac
 namespace MythVerif.WsqTso
 open MythVerif.Wsq
 
-set_option maxHeartbeats 4000000 in
 theorem t_vq0 (s s' : St) (p : Pid) : Inv s → s.tpc p = .vq0 → stepT s p = some s' → Inv s' := by
   intro h heq hs
   have hb := h.tbufE p (by simp [heq, mayBuf])
@@ -11,7 +10,6 @@ theorem t_vq0 (s s' : St) (p : Pid) : Inv s → s.tpc p = .vq0 → stepT s p = s
   simp at hs; subst hs
   tso_fastT h p []
 
-set_option maxHeartbeats 4000000 in
 theorem t_vq1 (s s' : St) (p : Pid) (t) : Inv s → s.tpc p = .vq1 t → stepT s p = some s' → Inv s' := by
   intro h heq hs
   have hb := h.tbufE p (by simp [heq, mayBuf])
@@ -20,7 +18,6 @@ theorem t_vq1 (s s' : St) (p : Pid) (t) : Inv s → s.tpc p = .vq1 t → stepT s
   all_goals (simp at hs; subst hs)
   all_goals tso_fastT h p []
 
-set_option maxHeartbeats 4000000 in
 theorem t_vc0 (s s' : St) (p : Pid) : Inv s → s.tpc p = .vc0 → stepT s p = some s' → Inv s' := by
   intro h heq hs
   have hb := h.tbufE p (by simp [heq, mayBuf])
@@ -29,7 +26,6 @@ theorem t_vc0 (s s' : St) (p : Pid) : Inv s → s.tpc p = .vc0 → stepT s p = s
   all_goals (simp at hs; subst hs)
   all_goals tso_fastT h p []
 
-set_option maxHeartbeats 4000000 in
 theorem t_vl (s s' : St) (p : Pid) : Inv s → s.tpc p = .vl → stepT s p = some s' → Inv s' := by
   intro h heq hs
   have hb := h.tbufE p (by simp [heq, mayBuf])
@@ -39,7 +35,6 @@ theorem t_vl (s s' : St) (p : Pid) : Inv s → s.tpc p = .vl → stepT s p = som
   all_goals (simp at hs; subst hs)
   all_goals tso_fastT h p []
 
-set_option maxHeartbeats 4000000 in
 theorem t_vc1 (s s' : St) (p : Pid) : Inv s → s.tpc p = .vc1 → stepT s p = some s' → Inv s' := by
   intro h heq hs
   have hb := h.tbufE p (by simp [heq, mayBuf])
